@@ -117,7 +117,7 @@ _chain("C11", ["reject_frame", "readonly_frame", "undecodable_frame", "accept_sh
 PROPS["C11"]["lean_modules"] = PROPS["C11"]["lean_modules"] + ["Posmint.Props.C03"]
 PROPS["C11"]["namespaces"] = PROPS["C11"]["namespaces"] + ["Posmint.Props.C03"]
 PROPS["C11"]["required_theorems"] = PROPS["C11"]["required_theorems"] + ["Posmint.Props.C03.accounts_step"]
-_chain("C17", ["param_change_authorised", "change_only_that_key", "dao_authorised", "gov_unauthorised_rejected", "block_ops_keep_gov", "gov_change_authorised", "gov_run", "acl_handover", "acl_drop", "acl_replace", "acl_undecodable", "upgrade_sets_plan"])
+_chain("C17", ["param_change_authorised", "change_only_that_key", "dao_authorised", "gov_unauthorised_rejected", "block_ops_keep_gov", "gov_change_authorised", "gov_run", "acl_handover", "acl_drop", "acl_replace", "acl_undecodable", "upgrade_sets_plan", "parseAcl_encodeAcl", "parseUpgrade_encodeUpgrade"])
 
 _chain("C07", ["slashAmount_exact", "slash_exact", "slash_noop", "doublesign_burns_all", "evidence_expired_ignored", "evidence_refused"])
 _chain("C08", ["window_step", "window_init", "counter_is_window_count", "window_frame", "minSigned_rounding"])
